@@ -563,7 +563,7 @@ func main() {
 		Name: "c16",
 		Rule: "pairs of generated basic worlds (points with/without/moved locations, paths, areas, relations and collections referencing across the layers) with overlapping, nested, overlay-heavy and one-sided ID sets, layered by NewOverlayWorld and by MutableOverlayWorld+AddFeature, observed by lookup, location, enumeration, tag/all search and the by-ID reference unions; plus the bare newOverlayFeatures iterator on sorted (5/6) and arbitrary (1/6) ID sequences and filters; non-trivial = the two layers share at least one ID (worlds) / the filter removes a base element while the overlay is non-empty (iterator); distinct = by hash of the op text",
 		Quick:    2500,
-		Thorough: 60000,
+		Thorough: 30000,
 		Corpus:   corpus,
 		Case: func(c *hx.Ctx) {
 			switch k := c.Rand.Intn(10); {
